@@ -106,75 +106,86 @@ Definition own_apply (x : xstate) (f : nat) (u : uid) (p : pud) (want given : mo
                 (set_xst (set_users (update u (set_pud_modes want given) (st_users (x_st x))) (x_st x)) x)),
         [(CUpd, false)]).
 
+(* {sub} of a cached, not deleted subscriber (thisUserSub 1646-1836, subscriptionReply 1385-1408) *)
+Definition xattach_existing (x : xstate) (f : nat) (s : sid) (u : uid) (chan : bool) (mw : option mode) (p : pud) : option xstate * calls :=
+  let bkg := is_bkg x s in
+  match own_modes (x_st x) u p mw with
+  | OwnOos => (None, [])
+  | OwnRefused => (Some x, [])
+  | OwnModes want given =>
+    match own_apply x f u p want given with
+    | (None, cl) => (Some x, cl)                                          (* 500: nothing written *)
+    | (Some x1, cl) =>
+      let st1 := x_st x1 in
+      if negb (has want bJ) then
+        (* evictUser; subscriptionReply attaches the session all the same when nothing changed
+           (modeChanged == nil leaves hasJoined = true) *)
+        (if (want =? pu_want p) && (given =? pu_given p)
+         then (Some (set_xst (xadd_session (evict_user st1 u false) bkg s u chan) x1), cl)
+         else (Some (set_xst (evict_user st1 u false) x1), cl))
+      else if negb (has given bJ) then (Some x1, cl)                      (* 403 banned *)
+      else (Some (set_xst (xadd_session st1 bkg s u chan) x1), cl)
+    end
+  end.
+
+(* first connection of a channel reader: store.Subs.Get(chnXXX); given = JRP (thisUserSub 1522-1553, 1606-1631) *)
+Definition xattach_new_chan (x : xstate) (f : nat) (s : sid) (u : uid) (mw : option mode) : option xstate * calls :=
+  let st := x_st x in
+  if fails f 0 then (Some x, [(CGet, true)])
+  else
+    let oldwant := match lookup u (st_chanrows st) with Some w => w | None => mode_chnreader end in
+    let want := match mw with Some m => N.lor (N.lor (N.land m mode_chnreader) bR) bJ | None => oldwant end in
+    let cl1 := [(CGet, false)] in
+    let wr := if has_key u (st_chanrows st) then (if want =? oldwant then [] else [CUpd]) else [CShare] in
+    (* `t.perUser[asUid] = userData`; a want without J: evictUser, hasJoined = false *)
+    let join st1 := if has want bJ then xadd_session st1 false s u true else evict_user st1 u false in
+    match wr with
+    | c :: _ => if fails f 1 then (Some x, cl1 ++ [(c, true)]) else
+        let rows := if has_key u (st_chanrows st) then update u (fun _ => want) (st_chanrows st) else st_chanrows st ++ [(u, want)] in
+        let st1 := set_chanrows rows (set_users (st_users st ++ [(u, mkPud want mode_chnreader false true 0 0%Z)]) st) in
+        (Some (set_xst (join st1) x), cl1 ++ [(c, false)])
+    | [] =>
+        let st1 := set_users (st_users st ++ [(u, mkPud want mode_chnreader false true 0 0%Z)]) st in
+        (Some (set_xst (join st1) x), cl1)
+    end.
+
+(* new subscriber: store.Subs.Get(t.name, keepDeleted); default access; store.Subs.Create (thisUserSub 1557-1620) *)
+Definition xattach_new_sub (x : xstate) (f : nat) (s : sid) (u : uid) (mw : option mode) : option xstate * calls :=
+  let st := x_st x in
+  let bkg := is_bkg x s in
+  if fails f 0 then (Some x, [(CGet, true)])
+  else
+    let given := st_defacs st in
+    let want := match mw with Some m => N.ldiff m bO | None => st_defacs st end in
+    if negb (has given bJ) then (Some x, [(CGet, false)])             (* 403 *)
+    else if fails f 1 then (Some x, [(CGet, false); (CShare, true)])
+    else
+      let st1 := set_users (st_users st ++ [(u, mkPud want given false false 0 0%Z)]) st in
+      let x1 := set_xrows (row_set u (want, given) (x_rows x)) x in
+      let cl := [(CGet, false); (CShare, false)] in
+      if negb (has want bJ) then (Some (set_xst (evict_user st1 u false) x1), cl)
+      else (Some (set_xst (xadd_session st1 bkg s u false) x1), cl).
+
 (* {sub} by connection s acting for u, spelled chnXXX iff chan, with set.sub.mode = mw *)
 Definition xattach (x : xstate) (f : nat) (s : sid) (u : uid) (chan : bool) (mw : option mode) : option xstate * calls :=
   let st := x_st x in
-  let bkg := is_bkg x s in
   if has_key s (st_sess st) then (Some x, [])                               (* 304 already subscribed *)
   else if negb (chan_ok st chan) then (Some x, [])                          (* 404 *)
-  else if bkg && chan then (None, [])
+  else if is_bkg x s && chan then (None, [])
   else match lookup u (st_users st) with
   | Some p =>
     if pu_deleted p then (None, [])
     else if negb (pu_ischan p) && chan then (Some x, [])                    (* 303 use the other name *)
     else if pu_ischan p && negb chan then (None, [])                        (* finding 1: base flow *)
     else if pu_ischan p && (match mw with Some _ => true | None => negb (has (pu_want p) bJ) end) then (None, [])
-    else match own_modes st u p mw with
-    | OwnOos => (None, [])
-    | OwnRefused => (Some x, [])
-    | OwnModes want given =>
-      match own_apply x f u p want given with
-      | (None, cl) => (Some x, cl)                                          (* 500: nothing written *)
-      | (Some x1, cl) =>
-        let st1 := x_st x1 in
-        if negb (has want bJ) then
-          (* evictUser; subscriptionReply attaches the session all the same when nothing changed
-             (modeChanged == nil leaves hasJoined = true) *)
-          (if (want =? pu_want p) && (given =? pu_given p)
-           then (Some (set_xst (xadd_session (evict_user st1 u false) bkg s u chan) x1), cl)
-           else (Some (set_xst (evict_user st1 u false) x1), cl))
-        else if negb (has given bJ) then (Some x1, cl)                      (* 403 banned *)
-        else (Some (set_xst (xadd_session st1 bkg s u chan) x1), cl)
-      end
-    end
+    else xattach_existing x f s u chan mw p
   | None =>
     match st_kind st with
     | KP2P => (Some x, [])                                                  (* 403: given = N *)
     | _ =>
-      if chan then
-        (* first connection of a channel reader: store.Subs.Get(chnXXX); given = JRP *)
-        if fails f 0 then (Some x, [(CGet, true)])
-        else
-          let oldwant := match lookup u (st_chanrows st) with Some w => w | None => mode_chnreader end in
-          let want := match mw with Some m => N.lor (N.lor (N.land m mode_chnreader) bR) bJ | None => oldwant end in
-          let cl1 := [(CGet, false)] in
-          let wr := if has_key u (st_chanrows st) then (if want =? oldwant then [] else [CUpd]) else [CShare] in
-          (* `t.perUser[asUid] = userData`; a want without J: evictUser, hasJoined = false *)
-          let join st1 := if has want bJ then xadd_session st1 false s u true else evict_user st1 u false in
-          match wr with
-          | c :: _ => if fails f 1 then (Some x, cl1 ++ [(c, true)]) else
-              let rows := if has_key u (st_chanrows st) then update u (fun _ => want) (st_chanrows st) else st_chanrows st ++ [(u, want)] in
-              let st1 := set_chanrows rows (set_users (st_users st ++ [(u, mkPud want mode_chnreader false true 0 0%Z)]) st) in
-              (Some (set_xst (join st1) x), cl1 ++ [(c, false)])
-          | [] =>
-              let st1 := set_users (st_users st ++ [(u, mkPud want mode_chnreader false true 0 0%Z)]) st in
-              (Some (set_xst (join st1) x), cl1)
-          end
+      if chan then xattach_new_chan x f s u mw
       else if mem u (st_gone st) then (None, [])
-      else
-        (* new subscriber: store.Subs.Get(t.name, keepDeleted); default access; store.Subs.Create *)
-        if fails f 0 then (Some x, [(CGet, true)])
-        else
-          let given := st_defacs st in
-          let want := match mw with Some m => N.ldiff m bO | None => st_defacs st end in
-          if negb (has given bJ) then (Some x, [(CGet, false)])             (* 403 *)
-          else if fails f 1 then (Some x, [(CGet, false); (CShare, true)])
-          else
-            let st1 := set_users (st_users st ++ [(u, mkPud want given false false 0 0%Z)]) st in
-            let x1 := set_xrows (row_set u (want, given) (x_rows x)) x in
-            let cl := [(CGet, false); (CShare, false)] in
-            if negb (has want bJ) then (Some (set_xst (evict_user st1 u false) x1), cl)
-            else (Some (set_xst (xadd_session st1 bkg s u false) x1), cl)
+      else xattach_new_sub x f s u mw
     end
   end.
 
